@@ -26,6 +26,9 @@ C06 -- alignment evidence is a faithful pileup of the eligible reads.
 """
 import itertools
 import collections
+import os
+import tempfile
+import yaml
 import z3
 
 import symx
@@ -74,6 +77,10 @@ def configs(tier):
             for first in range(len(OPS)):
                 c.append({"kind": "shapes", "genome": b, "nops": n, "first": first,
                           **({"maxsz": 2, "starts": 4} if n == 3 else extra)})
+        for anchor in ("lo", "hi"):
+            for first in range(len(OPS)):
+                c.append({"kind": "shapes", "genome": b, "nops": 2, "first": first,
+                          "maxsz": 3, "starts": 4, "anchor": anchor})
         c.append({"kind": "walkers", "genome": b, "nops": 2, **extra})
     c.append({"kind": "quality"})
     c.append({"kind": "region"})
@@ -192,6 +199,11 @@ def choose_read(eng, gene, sample, cfg, V, prefix=""):
     """concretise (start, cigar, seq) from the z3 variables V."""
     mnp = next(iter(sample._multi_sites.items()))
     lo = mnp[0] - 4
+    # reads that cross the first / last genome position RefSeq maps to
+    if cfg.get("anchor") == "lo":
+        lo = min(gene.chr_to_ref) - 3
+    elif cfg.get("anchor") == "hi":
+        lo = max(gene.chr_to_ref) - 2
     start = eng.choose(V["start"], range(lo + 1, lo + 1 + cfg.get("starts", 4)))
     n = cfg["nops"]
     cigar = []
@@ -270,7 +282,8 @@ def run_shapes(cfg):
     n = cfg["nops"]
     V = read_vars(n)
     base = read_base(V, n) + [V["op"][0] == cfg["first"]]
-    tag = f"shapes/GA/{cfg['genome']}/{n}ops/first={NAMES[OPS[cfg['first']]]}"
+    tag = f"shapes/GA/{cfg['genome']}/{n}ops/first={NAMES[OPS[cfg['first']]]}" + (
+        f"/edge-{cfg['anchor']}" if cfg.get("anchor") else "")
     quals_of = lambda s: [30] * len(s)  # noqa
 
     def run():
@@ -644,11 +657,39 @@ def run_walkers(cfg):
             data = prof_mod.Profile.get_sam_profile_data("x.bam", regions=regs,
                                                          cn_region=region, genome="hg19")
             d3 = {p: data["G"][f"p{p}"][0] for p in d1}
+            # the profile-file route: what `aldy profile -n <region>` writes for this gene,
+            # loaded back -- the neutral value must be the depth summed over the very
+            # region the loaded profile then measures the sample's neutral depth in
+            gregs = {(gene.name, r, gi): rng for gi, gr in enumerate(gene.regions)
+                     for r, rng in gr.items()}
+            pdata = prof_mod.Profile.get_sam_profile_data(
+                "x.bam", regions=gregs, cn_region=region, genome=gene.genome)
+            with tempfile.NamedTemporaryFile("w", suffix=".yml", delete=False) as f:
+                yaml.safe_dump(pdata, f)
+            try:
+                lp = prof_mod.Profile.load(gene, f.name)
+            finally:
+                os.unlink(f.name)
+            route = (tuple(lp.cn_region) == tuple(region)
+                     and float(lp.neutral_value) == float(sum(cnv.values()))
+                     and all(float(lp.data[gene.name][r][gi]) == float(sum(
+                         d1.get(p, 0) for p in range(rng.start, rng.end) if p in d1))
+                         for (g_, r, gi), rng in gregs.items()
+                         if w0 - 1 <= rng.start and rng.end <= end + 2))
         finally:
             sam_mod.pysam.AlignmentFile, prof_mod.pysam.AlignmentFile = saved
-        return (start, cigar, seq), d1, d2, d3
+        return (start, cigar, seq), d1, d2, d3, (route, tuple(lp.cn_region), tuple(region))
 
-    for dec, pc, (case, d1, d2, d3) in eng.explore(run, base, max_paths=200000):
+    for dec, pc, (case, d1, d2, d3, route) in eng.explore(run, base, max_paths=200000):
+        ob(res, f"walkers/GA/{cfg['genome']}: a profile written for a custom neutral region "
+                "and loaded back measures the neutral depth in that region, with that "
+                "region's depth as neutral value", "holds" if route[0] else "sat")
+        if not route[0]:
+            res["violations"].append({
+                "what": f"profile-file route: written for neutral region {route[2]}, loaded "
+                        f"profile uses {route[1]} (or its neutral value / region rows are "
+                        "not the depth sums)", "key": "profile-route",
+                "replay": {"kind": "none"}})
         good = {k: float(v) for k, v in d1.items()} == {k: float(v) for k, v in d2.items()} \
             == {k: float(v) for k, v in d3.items()}
         ob(res, f"walkers/GA/{cfg['genome']}: pileup depth = neutral-region walker = "
